@@ -19,6 +19,12 @@ var NestNames = []string{"top/mid/leaf", "top", "top/mid", "top/z"}
 // AllNames = NamePool + NestNames.
 var AllNames = append(append([]string{}, NamePool...), NestNames...)
 
+// MetaValues: user metadata values, among them ones that JSON encoders escape (or that look like an escape already).
+var MetaValues = []string{"v", "", "ü", "<&>", "a\\u0026b", "\\u003c", "q\"uote", "back\\slash", "line\nbreak", "\u2028"}
+
+// MemOnlyNames are object names that no file can have (trailing or doubled separators): memory store only.
+var MemOnlyNames = []string{"photos/", "x/o/", "dir/sub/"}
+
 // HostileNames confuse URL parsing (thorough tier of C02, C15).
 var HostileNames = []string{"b/x/o/y", "storage/v1/b/x/o/y"}
 
@@ -28,7 +34,7 @@ var CTPool = []string{"", "", "text/plain", "application/octet-stream", "image/p
 
 func GenPayload() *rapid.Generator[Payload] {
 	return rapid.Custom(func(t *rapid.T) Payload {
-		k := rapid.SampledFrom([]string{"empty", "one", "bin", "text", "text", "text", "bin", "framing"}).Draw(t, "pk")
+		k := rapid.SampledFrom([]string{"empty", "one", "bin", "text", "text", "text", "bin", "framing", "rep"}).Draw(t, "pk")
 		return Payload{K: k, N: rapid.IntRange(0, 40).Draw(t, "pn"), Seed: rapid.IntRange(0, 255).Draw(t, "seed")}
 	})
 }
@@ -56,10 +62,11 @@ func GenUpload(buckets, names []string, big bool) *rapid.Generator[Op] {
 			op.Chunks = GenChunks().Draw(t, "chunks")
 		}
 		if op.Proto != "media" && rapid.IntRange(0, 2).Draw(t, "hasmeta") == 0 {
-			op.Meta = map[string]string{rapid.SampledFrom([]string{"k1", "k2"}).Draw(t, "mk"): rapid.SampledFrom([]string{"v", "", "ü"}).Draw(t, "mv")}
+			op.Meta = map[string]string{rapid.SampledFrom([]string{"k1", "k2"}).Draw(t, "mk"): rapid.SampledFrom(MetaValues).Draw(t, "mv")}
 		} else if op.Proto != "media" {
 			op.EmptyMeta = rapid.IntRange(0, 3).Draw(t, "emptymeta") == 0
 		}
+		op.Chunked = rapid.IntRange(0, 5).Draw(t, "chunked") == 0
 		if op.Proto == "resumable" && op.MD5 == "wrong" {
 			op.RetryFinal = rapid.Bool().Draw(t, "retryfinal")
 		}
@@ -112,7 +119,7 @@ func GenPatch(buckets, names []string, condPct int, ro bool) *rapid.Generator[Op
 			case 3:
 				op.Set = setk(op.Set, "contentLanguage", rapid.SampledFrom([]string{"en", "de"}).Draw(t, "v"))
 			default:
-				op.MetaSet = setk(op.MetaSet, rapid.SampledFrom([]string{"k1", "k2", "k3"}).Draw(t, "mk"), rapid.SampledFrom([]string{"p", "q", "ü"}).Draw(t, "mv"))
+				op.MetaSet = setk(op.MetaSet, rapid.SampledFrom([]string{"k1", "k2", "k3"}).Draw(t, "mk"), rapid.SampledFrom(append([]string{"p", "q"}, MetaValues...)).Draw(t, "mv"))
 			}
 		}
 		if ro && rapid.IntRange(0, 3).Draw(t, "ro") == 0 {
